@@ -52,18 +52,21 @@ class GuesserModel:
     """Reference semantics of the guesser's loaded OMEN grammar: level of a string, number of strings per level."""
 
     def __init__(self, g):
+        # a table "level -> entries" may be a dictionary keyed by level or a list indexed by level (an empty entry = nothing on that level)
+        def by_level(t):
+            return t.items() if hasattr(t, 'items') else enumerate(t)
         self.n = g['ngram']
         self.ip = {}
-        for lvl, lst in g['ip'].items():
+        for lvl, lst in by_level(g['ip']):
             for x in lst:
                 self.ip.setdefault(x, []).append(lvl)
         self.cp = {}
         for ctx, d in g['cp'].items():
-            for lvl, chars in d.items():
+            for lvl, chars in by_level(d):
                 for ch in chars:
                     self.cp.setdefault(ctx, {}).setdefault(ch, []).append(lvl)
         self.ln = {}          # number of transitions -> [levels]
-        for lvl, lst in g['ln'].items():
+        for lvl, lst in by_level(g['ln']):
             for ncp in lst:
                 self.ln.setdefault(ncp, []).append(lvl)
 
